@@ -31,6 +31,15 @@ func init() {
 	if err := extensions.Init(&cfg); err != nil {
 		panic(err)
 	}
+	if os.Getenv("VERIF_IOCFG_REINIT") != "" {
+		// later Init calls with other configurations (what a library user or a test does "to be safe"): the
+		// configuration of the process stays the first one
+		_ = extensions.Init(nil)
+		_ = extensions.Init(&extensions.Config{HasLoad: true, HasSave: true, UnrestrictedIOs: true})
+		_ = extensions.Init(&extensions.Config{HasLoad: true, HasSave: true})
+		_ = extensions.Init(&extensions.Config{HasLoad: true, HasSave: true, LoadSaveEmptyOnly: true, UnrestrictedIOs: true})
+		_ = extensions.Init(&extensions.Config{})
+	}
 	registerHarnessExtensions()
 }
 
@@ -38,10 +47,11 @@ func init() {
 var verifCounter int64
 
 // Harness extensions, added through the public object.CreateFunction API:
-//   verif_counter()  DontCache, returns 0,1,2,... (reset per session by the harness)
-//   verif_panic()    raises a Go runtime panic inside the evaluator (so checks about recovered panics do not
-//                    depend on grol keeping a crashing operator)
-//   verif_cancel()   cancels the evaluation context (State.Cancel), like a deadline or ^C landing mid-evaluation
+//
+//	verif_counter()  DontCache, returns 0,1,2,... (reset per session by the harness)
+//	verif_panic()    raises a Go runtime panic inside the evaluator (so checks about recovered panics do not
+//	                 depend on grol keeping a crashing operator)
+//	verif_cancel()   cancels the evaluation context (State.Cancel), like a deadline or ^C landing mid-evaluation
 func registerHarnessExtensions() {
 	must := func(err error) {
 		if err != nil {
